@@ -32,13 +32,13 @@ FUNCTIONS = ['pymeeus/Epoch.py:Epoch.get_full_date', 'pymeeus/Epoch.py:Epoch.get
 MANIFEST = dict(
     text=("Lean 4 theorems (Props/C02.lean) about the exact-arithmetic (Rat) model of Epoch.get_full_date, the "
           "Epoch.set/constructor dispatch without kwargs, check_input_date and the operators, for EVERY rational "
-          "JDE >= 0 (no upper bound): the fields of get_full_date are canonical (0<=h<=23, 0<=mi<=59, 0<=s<60, "
+          "JDE >= -1/2 (the whole domain of the class, no upper bound): the fields of get_full_date are canonical (0<=h<=23, 0<=mi<=59, 0<=s<60, "
           "(y,m,d) a date of the civil calendar), rebuilding the instant from the fields returns the JDE exactly, "
           "the date/time tuple is lexicographically monotone in the JDE, Epoch(jde) stores jde and Epoch(e) copies e, "
           "all input forms (separate values, tuple, list, datetime, date, month number/short/long name, fractional "
           "day vs h/m/s, set() vs constructor) give the same JDE, (e+x)-e = x, e-(e-x) = x, x+e = e+x, += and -= "
           "give the value of + and -, and < <= > >= order Epochs (and Epoch vs number) as their JDE, == is "
-          "|difference| < 1e-10 as coded, != its negation. The model is tied to /repo by running its binary64 "
+          "|difference| < 1e-10 as coded (absolute at every magnitude, same rule against a bare number, symmetric, not transitive), != its negation. Also: get_full_date is injective and strictly monotone and refines get_date; h*3600+mi*60+s = 86400*frac(JDE+1/2); _compute_jde is an isometry inside a civil day (no amplification of the rounding error of the folded day); a datetime stores its microseconds; the constructor accepts EXACTLY the documented ranges (every bound as written, civil month lengths) and raises ValueError otherwise; missing h/m/s default to 0; the exception raised for every argument shape of set / check_input_date / the operators; the maxdays and month-name tables; the four order operators form one total order; + and - with numbers form the expected algebra and keep order and differences. The model is tied to /repo by running its binary64 "
           "instantiation bit for bit and its exact instantiation within 1e-8 day against the real code. That "
           "binary64 rounding stays below 1e-8 / 1e-9 day is NOT a theorem: it is measured on the implementation "
           "by the predicates of every clause on boundary-heavy inputs (+-ulp, +-1 ms, +-1 s around day, month, "
@@ -63,7 +63,7 @@ TRUSTED = [
 ASSUMPTIONS = [
     'well-typed calls: year int, month int/float/str, day/hours/minutes/seconds int or float of magnitude < 2**53',
     'kwargs utc / leap_seconds / local absent (C10)',
-    'theorems assume JDE >= 0 (and JDE + offset >= 0 for the arithmetic clauses); negative results are covered by (S)+(I) only']
+    'theorems assume JDE >= -1/2 (and JDE + offset >= -1/2 for the arithmetic clauses); results before -4712-01-01 are covered by (S)+(I) only']
 RULE = 'distinct (model function, argument tuple) pairs sent to the model and to the implementation'
 
 TOL_RT = 1e-8      # round trip / arithmetic
